@@ -329,7 +329,11 @@ def struct_muts(kind, v, rng):
         if v["body"] is not None:
             u, val = v["body"]
             for name, x in (("empty", b""), ("slashx", b"/x"), ("noslash", u[1:]), ("other", b"/astria.protocol.transaction.v1.Transaction"),
-                            ("upper", u.upper())):
+                            ("upper", u.upper()),
+                            # near misses of the expected type URL: a host in front of it, a longer or
+                            # shorter path, a doubled slash (only the exact URL names the body type)
+                            ("hosted", b"type.googleapis.com" + u), ("prefixed", b"x" + u), ("suffixed", u + b"x"),
+                            ("dslash", b"/" + u), ("trunc", u[:-1]), ("nested", u + u)):
                 put("url_" + name, body=(x, val))
             for name, b in bytes_muts(val, rng, 16):
                 put("body_" + name, body=(u, b))
@@ -513,6 +517,9 @@ class C17(CaseCheck):
                                 ("body_short1", dict(v, body=(u, val[:-1]))), ("body_half", dict(v, body=(u, val[:len(val) // 2]))),
                                 ("body_append", dict(v, body=(u, val + b"\x0a\x00"))), ("url_bad", dict(v, body=(b"/x", val))),
                                 ("url_empty", dict(v, body=(b"", val))), ("body_none", dict(v, body=None)),
+                                ("url_hosted", dict(v, body=(b"type.googleapis.com" + u, val))),
+                                ("url_prefixed", dict(v, body=(b"x" + u, val))), ("url_suffixed", dict(v, body=(u + b"x", val))),
+                                ("url_nested", dict(v, body=(u + u, val))),
                                 ("params_only", dict(v, body=(u, b"\x0a\x02\x08\x01")))]
                     for _ in range(10 if tier == "quick" else 60):
                         resigned.append(("body_flip", dict(v, body=(u, flip(val, rng)))))
